@@ -205,7 +205,23 @@ func (c *c20Case) run() string {
 
 // ---------------------------------------------------------------------------------------------
 
+// c20Label: a state label is an arbitrary single-line byte string and must reach the file verbatim.
 func c20Label(r *Rng) string {
+	if r.Chance(35) { // characters that mean something to printf, to a shell, to a CSV reader, to a terminal
+		hot := []string{"50% power", "%", "%%", "%d", "%s", "%v", "100%", "a%", "%!", "%5.2f x", "%[1]d", "%+q", "rate=%d Hz", "x %",
+			"back\\slash", "\\n", "C:\\tmp", "\"quoted\"", "it's", "`tick`", "tab\there", "\t", "  lead", "trail  ", " both ",
+			"\u00b5K bath", "caf\u00e9", "\u6e2c\u5b9a", "\U0001f9ca cold", "\xff\xfe raw", "nul\x00byte", "bell\x07", "a, b, c", "1700000000000000000, fake",
+			"# comment", ";", "$HOME", "<tag>", "{}", "%s%s%s%s%s%s%s%s%s%s", "%n", "%*d", "%c%c"}
+		l := hot[r.Intn(len(hot))]
+		if r.Chance(15) {
+			l += hot[r.Intn(len(hot))]
+		}
+		return l
+	}
+	if r.Chance(4) { // very long
+		unit := []string{"long label ", "%d,", "x"}[r.Intn(3)]
+		return strings.Repeat(unit, r.Pick(50, 400, 4096/len(unit)+1, 9000/len(unit)))
+	}
 	return []string{"A", "calib", "state 7", " ", "  x", "UNPAUSE", "Zz~", "STOP", "START", "a,b", "1, 2", "#", "x y z", "PAUSE"}[r.Intn(14)]
 }
 
@@ -224,6 +240,12 @@ func genC20(r *Rng, tier string, idx int) *c20Case {
 			{kind: "L", label: "F"}, {kind: "Q", req: "UNPAUSE G"}, {kind: "T", label: "H", ts: c20Future - 1},
 			{kind: "T", label: "", ts: 0}, {kind: "Q", req: "STOP"},
 			{kind: "Q", req: "START", l22: true}, {kind: "T", label: "I", ts: 1}, {kind: "Q", req: "STOP"}}}
+	}
+	if idx == 2 { // scripted: labels with printf verbs, a trailing %, backslashes, quotes, a tab, UTF-8
+		return &c20Case{idx: idx, nch: 1, ops: []c20Op{
+			{kind: "Q", req: "START", l22: true}, {kind: "L", label: "50% power"}, {kind: "L", label: "100%"}, {kind: "L", label: "next"},
+			{kind: "Q", req: "UNPAUSE %d items %s"}, {kind: "T", label: "%%", ts: c20Past + 1}, {kind: "L", label: "C:\\tmp\\new \"q\""},
+			{kind: "L", label: "tab\there"}, {kind: "Q", req: "unpause \u00b5K %"}, {kind: "Q", req: "STOP"}}}
 	}
 	c := &c20Case{idx: idx, nch: r.Pick(1, 1, 2, 3)}
 	lastTs := c20Past + int64(r.Intn(1000))
